@@ -160,16 +160,23 @@ JudgeFull(pre, l, cand) ==
         sigOutGap == IF pre.alive /\ (missing \cup extra) \ outKnown # {}
                      THEN {"DESYNC/out/" \o l.ev.t \o "/" \o (CHOOSE x \in (missing \cup extra) \ outKnown : TRUE).t} ELSE {}
         \* ---- API returns
-        obsR   == {[call |-> l.rets[k].call, err |-> l.rets[k].err] : k \in DOMAIN l.rets}
-        expR   == {[call |-> x.call, err |-> x.err] : x \in r.rets \cup cand.missed.rets}
+        \* calls whose return is due to the termination of the client may return with any error,
+        \* any time until the receive loop has ended; so may a call whose own completion coincides
+        \* with the termination (its select sees both)
+        termNow == pre.alive /\ ~post.alive
         termC  == {c \in DOMAIN pre.calls : pre.calls[c].term} \cup {c \in DOMAIN post.calls : post.calls[c].term}
+                  \cup {x.call : x \in {y \in r.rets \cup cand.missed.rets : y.term}}
+                  \cup (IF termNow THEN {x.call : x \in r.rets} ELSE {})
+        obsR   == {[call |-> l.rets[k].call, err |-> l.rets[k].err] : k \in DOMAIN l.rets}
+        expR   == {[call |-> x.call, err |-> x.err] : x \in {y \in r.rets \cup cand.missed.rets : y.call \notin termC}}
         unexp  == {x \in obsR : x \notin expR /\ x.call \notin termC}
-        absent == {x \in expR : x \notin obsR /\ x.call \notin {y.call : y \in obsR} /\ x.call \notin termC}
+        absent == {x \in expR : x \notin obsR /\ x.call \notin {y.call : y \in obsR}}
         wrong  == {x \in expR : x \notin obsR /\ x.call \in {y.call : y \in unexp}}
         isPubQ(c) == ApiOfCall(pre, l, c).api \in {"Publish", "PublishPredefined"} /\ ApiOfCall(pre, l, c).qos \in {1, 2}
         sigRet ==
           {"C17/nil-without-ack/" \o (IF c.call \in termC THEN "client-terminated" ELSE "exchange-pending") :
-              c \in {x \in obsR : x.err = "nil" /\ isPubQ(x.call) /\ [call |-> x.call, err |-> "nil"] \notin expR}}
+              c \in {x \in obsR : x.err = "nil" /\ isPubQ(x.call)
+                                    /\ ~\E y \in r.rets \cup cand.missed.rets : y.call = x.call /\ y.err = "nil"}}
           \cup {"C17/error-despite-ack/" \o x.err :
               x \in {y \in unexp : isPubQ(y.call) /\ y.err # "nil" /\ [call |-> y.call, err |-> "nil"] \in expR}}
           \cup {"C33/api-failed-by-keepalive/" \o ApiOfCall(pre, l, x.call).api :
@@ -213,15 +220,19 @@ Judge(pre, l, cand) ==
     ELSE JudgeFull(pre, l, cand)
 
 (* state after the line: calls that returned (bound from the trace) are removed *)
-After(cand, l) ==
+After(pre, cand, l) ==
     LET done == {l.rets[k].call : k \in DOMAIN l.rets}
         st   == cand.r.s
-    IN [st EXCEPT !.calls = [c \in DOMAIN st.calls \ {x \in done : x \in DOMAIN st.calls /\ st.calls[x].term} |-> st.calls[c]]]
+        late == IF pre.alive /\ ~st.alive
+                THEN {x.call : x \in {y \in cand.r.rets : y.call \notin done /\ y.call \in DOMAIN pre.calls}} ELSE {}
+        keep == (DOMAIN st.calls \ {x \in done : x \in DOMAIN st.calls /\ st.calls[x].term}) \cup late
+    IN [st EXCEPT !.calls = [c \in keep |-> IF c \in late THEN [pre.calls[c] EXCEPT !.term = TRUE, !.dl = RT] ELSE st.calls[c]]]
 
 Soft(post, l) ==
     IF l.ev.t \in {"End", "PreEnd"} THEN {} ELSE
     (IF post.alive /\ post.st # l.st THEN {"st"} ELSE {})
-    \cup (IF post.alive /\ (DOMAIN post.tx \cup DOMAIN post.rtx) # Range(l.pend) THEN {"pend"} ELSE {})
+    \cup (IF post.alive /\ ~(DOMAIN post.tx \subseteq Range(l.pend) /\ Range(l.pend) \subseteq DOMAIN post.tx \cup DOMAIN post.rtx)
+          THEN {"pend"} ELSE {})
     \cup (IF post.alive /\ DOMAIN post.ty # Range(l.ptypes) THEN {"ptypes"} ELSE {})
 
 ---------------------------------------------------------------------------
@@ -259,7 +270,7 @@ TNext ==
                /\ stat' = [stat EXCEPT !.lines = @ + 1]
           ELSE LET cand == Best(Cands(s, l), s, l)
                    sigs == Judge(s, l, cand)
-                   post == After(cand, l)
+                   post == After(s, cand, l)
                IN /\ s' = post
                   /\ mode' = IF sigs = {} THEN "run" ELSE "skip"
                   /\ viol' = IF sigs = {} THEN viol
